@@ -784,11 +784,12 @@ var limitProgs = []limitProg{
 	{name: "unpack-ratchet", kind: "reg", wide: true, want: func(n int) int { return n },
 		src: `local t, big = {}, {} for i = 1, N do t[i] = i end for i = 1, N + 3000 do big[i] = i end
 		      local function probe() return pcall(function() mark() return select('#', unpack(t, 1, N)) end) end
-		      local ok1, v1 = probe()
+		      local res = {}
+		      res[1] = { probe() }
 		      for i = 1, 300 do pcall(unpack, big) end
-		      local ok2, v2 = probe()
-		      if ok1 ~= ok2 then return false, "the limit moved: first " .. tostring(ok1) .. ", after 300 caught overflows " .. tostring(ok2) end
-		      return ok1, v1`},
+		      res[2] = { probe() }   -- called from the same register as the first one
+		      if res[1][1] ~= res[2][1] then return false, "the limit moved: first " .. tostring(res[1][1]) .. ", after 300 caught overflows " .. tostring(res[2][1]) end
+		      return res[1][1], res[1][2]`},
 	{name: "pushn", kind: "reg", want: func(n int) int { return n },
 		src: `return pcall(function() mark() return pushn(N) end)`},
 	{name: "rec-api", kind: "call", api: true, want: func(n int) int { return n },
@@ -984,6 +985,17 @@ func genLimits(w *lib.Writer, r *lib.Rand, tier string) {
 	for pi := range limitProgs {
 		p := &limitProgs[pi]
 		cfgs := limitCfgs(p.kind, tier)
+		if p.name == "rec-meta" {
+			// every level nests a call from Go into the interpreter: above ~190 levels the "C stack overflow"
+			// limit (independent of Options, see genCcalls) comes first
+			var small []Cfg
+			for _, c := range cfgs {
+				if c.CSS <= 64 {
+					small = append(small, c)
+				}
+			}
+			cfgs = small
+		}
 		if strings.HasPrefix(p.name, "deep-regs") {
 			// every alignment of the last frame against the end of the registry
 			for size := 130; size < 142; size++ {
@@ -1012,7 +1024,7 @@ func genLimits(w *lib.Writer, r *lib.Rand, tier string) {
 			seen := map[int]bool{}
 			for _, t := range limitTargets(p, c, r, tier) {
 				n := (t - k0) / slope
-				if n < 1 || n > 140000 || (strings.HasPrefix(p.name, "deep-regs") && n > 1500) || seen[n] {
+				if n < 1 || n > 140000 || (strings.HasPrefix(p.name, "deep-regs") && n > 1500) || (p.name == "rec-meta" && n > 150) || seen[n] {
 					continue
 				}
 				seen[n] = true
@@ -1041,6 +1053,125 @@ func genLimits(w *lib.Writer, r *lib.Rand, tier string) {
 			limitCase(w, in, p, nd, mfail[in.N], outs[i])
 		}
 	}
+}
+
+/* ---------- recursion through Go functions: bounded by a limit that no Option moves ---------- */
+
+// Every level of these programs nests a call from Go code into the interpreter (pcall, a metamethod,
+// a sort comparator, a gsub callback). Under a large CallStackSize the depth is bounded by the
+// "C stack overflow" check (LUAI_MAXCCALLS-like), which must be a catchable error at the same depth
+// under every configuration. N is the number of levels; the program returns pcall-style.
+var ccallProgs = []struct{ name, src string }{
+	{"pcall", `local function f(n) if n == 0 then return 0 end local ok, v = pcall(f, n - 1) if not ok then error(v, 0) end return v + 1 end
+	           return pcall(f, N)`},
+	{"index", `local mt = {} local function mk(n) return setmetatable({ n = n }, mt) end
+	           mt.__index = function(t, k) if t.n == 0 then return 0 end return 1 + mk(t.n - 1)[k] end
+	           return pcall(function() return mk(N).x end)`},
+	{"sort", `local function s(n) if n == 0 then return 0 end local r
+	            table.sort({ 2, 1 }, function(a, b) if not r then r = s(n - 1) end return a < b end) return r + 1 end
+	          return pcall(s, N)`},
+	{"gsub", `local function g(n) if n == 0 then return 0 end local r
+	            string.gsub("x", "x", function() r = g(n - 1) end) return r + 1 end
+	          return pcall(g, N)`},
+}
+
+type CcallIn struct {
+	Kind string `json:"kind"` // "ccall"
+	Prog string `json:"prog"`
+	Cfg  Cfg    `json:"cfg"`
+	Ns   []int  `json:"ns"`
+}
+
+var ccallRef = Cfg{CSS: 3000, Reg: 20000}
+
+func ccallCfgs() []Cfg {
+	return []Cfg{{CSS: 2000, Reg: 20000}, {CSS: 2000, Reg: 20000, Min: true}, {CSS: 100000, Reg: 5120, Max: 131072, Grow: 32, Min: true},
+		{CSS: 1000, Reg: 128, Max: 131072, Grow: 1}, {CSS: 1500, Reg: 20000, Pkg: true}, {CSS: 1000, Reg: 20000, Ctx: true}}
+}
+
+func ccallJob(src string, cfg Cfg, n int) Job {
+	return Job{Cfg: cfg, Prog: src, N: n, Want: n, Kind: "call"}
+}
+
+func ccallCase(w *lib.Writer, in CcallIn, ref, outs []JobOut) {
+	enc := func(os []JobOut) []int64 {
+		t := make([]int64, len(os))
+		for i, o := range os {
+			t[i] = int64(o.Outcome)
+		}
+		return t
+	}
+	rt, tt := enc(ref), enc(outs)
+	mixed := false
+	for i := range rt {
+		if rt[i] != rt[0] {
+			mixed = true
+		}
+	}
+	id := w.Add(lib.Case{Input: in, Observed: map[string]any{"outcomes": tt, "ref": rt}, Class: "ccall/" + in.Prog, Nontrivial: mixed,
+		Coq: fmt.Sprintf("CTrace %s %s %s", in.Cfg.normalised().coq(), zlist(rt), zlist(tt))})
+	for i, o := range outs {
+		if o.Fail != "" {
+			w.GoFail(id, fmt.Sprintf("recursion through Go functions, %s N=%d: %s", in.Prog, in.Ns[i], o.Fail))
+		} else if o.Outcome > 1 {
+			w.GoFail(id, fmt.Sprintf("recursion through Go functions, %s N=%d: neither completed nor a caught stack overflow: %s", in.Prog, in.Ns[i], o.ErrMsg))
+		} else if !o.Epi {
+			w.GoFail(id, fmt.Sprintf("recursion through Go functions, %s N=%d: the state did not work afterwards", in.Prog, in.Ns[i]))
+		}
+	}
+}
+
+func findCcall(name string) string {
+	for _, p := range ccallProgs {
+		if p.name == name {
+			return p.src
+		}
+	}
+	return ""
+}
+
+func genCcalls(w *lib.Writer) {
+	for _, p := range ccallProgs {
+		// the deepest N that completes under the reference configuration
+		lo, hi := 1, 1200
+		for hi-lo > 1 {
+			mid := (lo + hi) / 2
+			o := runJobs([]Job{ccallJob(p.src, ccallRef, mid)}, 20*time.Second)
+			if o[0].Outcome == 0 && o[0].Fail == "" {
+				lo = mid
+			} else {
+				hi = mid
+			}
+		}
+		ns := []int{lo / 2, lo - 1, lo, lo + 1, lo + 2, lo + 60}
+		var jobs []Job
+		for _, n := range ns {
+			jobs = append(jobs, ccallJob(p.src, ccallRef, n))
+		}
+		cfgs := ccallCfgs()
+		for _, c := range cfgs {
+			for _, n := range ns {
+				jobs = append(jobs, ccallJob(p.src, c, n))
+			}
+		}
+		outs := runJobs(jobs, 20*time.Second)
+		for k, c := range cfgs {
+			ccallCase(w, CcallIn{Kind: "ccall", Prog: p.name, Cfg: c, Ns: ns}, outs[:len(ns)], outs[(k+1)*len(ns):(k+2)*len(ns)])
+		}
+	}
+}
+
+func replayCcall(w *lib.Writer, in CcallIn) {
+	src := findCcall(in.Prog)
+	var jobs []Job
+	for _, n := range in.Ns {
+		jobs = append(jobs, ccallJob(src, ccallRef, n))
+	}
+	for _, n := range in.Ns {
+		jobs = append(jobs, ccallJob(src, in.Cfg, n))
+	}
+	outs := runJobs(jobs, 30*time.Second)
+	ccallCase(w, in, outs[:len(in.Ns)], outs[len(in.Ns):])
 }
 
 /* ---------- replay helpers ---------- */
